@@ -122,7 +122,7 @@ Definition check_case (c : celcase) : celreport :=
              end in
   {| cr_model_generates := match model with Some _ => true | None => false end;
      cr_cert := opt_gexpr_eqb (cc_real c) model;
-     cr_fragment := match cc_ast c with Some e => proved_fragment (cc_fields c) (cc_fname c) e | None => false end;
+     cr_fragment := match cc_ast c with Some e => proved_fragment re_ok (cc_fields c) (cc_fname c) e | None => false end;
      cr_structs_ok := forallb (fun row => match row with (rho, _, _) => struct_ok (cc_fields c) rho end) (cc_rows c);
      cr_cel_evaluated := if exec_ok then celn else O;
      cr_cel_mismatch := if exec_ok then celm else [];
@@ -160,6 +160,7 @@ Proof.
   destruct (cc_ast c) as [e|] eqn:Ea; [|discriminate Hfrag].
   unfold opt_gexpr_eqb in Hcert. destruct (cc_real c) as [cond|] eqn:Er; [|cbn in Hcert; discriminate Hcert].
   change (match cel_condition (cc_fname c) (case_re_ok c) (cc_src c) (Some e) with Some y => gexpr_eqb cond y | None => false end = true) in Hcert.
+  change (proved_fragment (case_re_ok c) (cc_fields c) (cc_fname c) e = true) in Hfrag.
   destruct (cel_condition (cc_fname c) (case_re_ok c) (cc_src c) (Some e)) as [m|] eqn:Em; [|cbn in Hcert; discriminate Hcert].
   apply gexpr_eqb_eq in Hcert. subst m.
   exists e, cond. split; [reflexivity|]. split; [reflexivity|]. intros rho Hrho.
